@@ -104,20 +104,23 @@ theorem usub_eq {a b : Nat} (hb : b ≤ a) (ha : a < 4294967296) : usub a b = a 
 
 
 theorem lenLoop_zero (r : Ring) (al : Nat) (ts : Bytes) (pos : Nat) :
-    lenLoop r al 0 ts pos = some pos := by simp [lenLoop]
+    lenLoop r al 0 ts pos = some (if pos ≤ r.total then pos else 0) := by simp [lenLoop]
 
 theorem lenLoop_spec {r : Ring} {msg : Bytes} (h : r.d0 ++ r.d1 = msg) (al : Nat) (tags : Bytes) :
     ∀ (args : List Arg) (pos : Nat) (R : Bytes),
     Matches tags args → (∀ a ∈ args, a.WF) → msg.drop pos = args.flatMap encArg ++ R →
     al % 4 = 0 → al ≤ pos → pos % 4 = 0 → pos + (args.flatMap encArg).length < 4294967296 →
-    pos + (args.flatMap encArg).length < r.fuel →
+    pos + (args.flatMap encArg).length ≤ r.total →
     lenLoop r al (nreserved tags) tags pos = some (pos + (args.flatMap encArg).length) := by
   induction tags with
   | nil =>
-    intro args pos R hm _ _ _ _ _ _ _
-    rw [matches_nil hm]; simp [nreserved, lenLoop]
+    intro args pos R hm _ _ _ _ _ _ hfu
+    rw [matches_nil hm] at hfu ⊢
+    simp only [List.flatMap_nil, List.length_nil, Nat.add_zero] at hfu ⊢
+    simp [nreserved, lenLoop, hfu]
   | cons t ts ih =>
     intro args pos R hm hwf hd hal hle hp hlt hfu
+    have hfuel : r.fuel = r.total + 2 := rfl
     rcases kind_cases t with ⟨hk, hr, ht⟩ | ⟨hk, hr, ht⟩ | ⟨hk, hr, ht⟩ | ⟨hk, hr, ht⟩ | ⟨hk, hr, ht⟩ |
       ⟨hk, hr, h1, h2, h3, h4, h5, h6, h7, h8, h9, h10, h11⟩
     · obtain ⟨a, as, rfl, hak, hm'⟩ := matches_take hk hm
@@ -127,9 +130,10 @@ theorem lenLoop_spec {r : Ring} {msg : Bytes} (h : r.d0 ++ r.d1 = msg) (al : Nat
       have hd' := drop_add_of_drop hd
       simp only [encArg, be32_length] at hd' hlt hfu ⊢
       rw [nreserved_cons_true hr]
+      have hin : ¬ pos > r.total := by omega
       have step : lenLoop r al (nreserved ts + 1) (t :: ts) pos =
           lenLoop r al (nreserved ts) ts (u32 (pos + 4)) := by
-        rcases ht with rfl | rfl | rfl | rfl <;> simp [lenLoop]
+        rcases ht with rfl | rfl | rfl | rfl <;> simp [lenLoop, hin]
       rw [step, u32_id (by omega), ih as (pos + 4) R hm' hwf' hd' hal (by omega) (by omega) (by omega)
         (by omega)]
       congr 1; omega
@@ -140,9 +144,10 @@ theorem lenLoop_spec {r : Ring} {msg : Bytes} (h : r.d0 ++ r.d1 = msg) (al : Nat
       have hd' := drop_add_of_drop hd
       simp only [encArg, be64_length] at hd' hlt hfu ⊢
       rw [nreserved_cons_true hr]
+      have hin : ¬ pos > r.total := by omega
       have step : lenLoop r al (nreserved ts + 1) (t :: ts) pos =
           lenLoop r al (nreserved ts) ts (u32 (pos + 8)) := by
-        rcases ht with rfl | rfl | rfl <;> simp [lenLoop]
+        rcases ht with rfl | rfl | rfl <;> simp [lenLoop, hin]
       rw [step, u32_id (by omega), ih as (pos + 8) R hm' hwf' hd' hal (by omega) (by omega) (by omega)
         (by omega)]
       congr 1; omega
@@ -153,9 +158,10 @@ theorem lenLoop_spec {r : Ring} {msg : Bytes} (h : r.d0 ++ r.d1 = msg) (al : Nat
       have hd' := drop_add_of_drop hd
       simp only [encArg, List.length_cons, List.length_nil] at hd' hlt hfu ⊢
       rw [nreserved_cons_true hr]
+      have hin : ¬ pos > r.total := by omega
       have step : lenLoop r al (nreserved ts + 1) (t :: ts) pos =
           lenLoop r al (nreserved ts) ts (u32 (pos + 4)) := by
-        subst ht; simp [lenLoop]
+        subst ht; simp [lenLoop, hin]
       rw [step, u32_id (by omega), ih as (pos + 4) R hm' hwf' hd' hal (by omega) (by omega) (by omega)
         (by omega)]
       congr 1; omega
@@ -168,32 +174,18 @@ theorem lenLoop_spec {r : Ring} {msg : Bytes} (h : r.d0 ++ r.d1 = msg) (al : Nat
       have hd' := drop_add_of_drop hd
       simp only [encArg, padStr_length] at hd' hlt hfu ⊢
       rw [nreserved_cons_true hr]
-      have hscan : ∃ q, scanNul r r.fuel (u32 (pos + 1)) = some q ∧ pos < q ∧ q < 4294967296 ∧
-          q + (4 - (q - al) % 4) = pos + (s.length + (4 - s.length % 4)) := by
-        rw [u32_id (by omega)]
-        cases s with
-        | nil =>
-          have hd1 : msg.drop (pos + 1) = [] ++ 0 :: (zeros 2 ++ (as.flatMap encArg ++ R)) := by
-            have hx : msg.drop pos = [0] ++ (0 :: (zeros 2 ++ (as.flatMap encArg ++ R))) := by
-              rw [hd]; simp [encArg, padStr, zeros, List.replicate]
-            have := drop_add_of_drop hx; simpa using this
-          refine ⟨pos + 1 + 0, scanNul_of_drop h [] (pos + 1) r.fuel _ hd1 (by simp [NoNul]) (by simp [Ring.fuel])
-            (by simp only [List.length_nil]; omega), by omega, by omega, ?_⟩
-          simp only [List.length_nil]; omega
-        | cons c s' =>
-          have hd1 : msg.drop (pos + 1) = s' ++ 0 :: (zeros (3 - (c :: s').length % 4) ++ (as.flatMap encArg ++ R)) := by
-            have hx : msg.drop pos = [c] ++ (s' ++ 0 :: (zeros (3 - (c :: s').length % 4) ++ (as.flatMap encArg ++ R))) := by
-              rw [hd, encArg, padStr_eq]; simp
-            have := drop_add_of_drop hx; simpa using this
-          simp only [List.length_cons] at hlt hfu ⊢
-          refine ⟨pos + 1 + s'.length, scanNul_of_drop h s' (pos + 1) r.fuel _ hd1 hs.tail (by omega)
-            (by omega), by omega, by omega, ?_⟩
-          omega
-      obtain ⟨q, hq1, hq2, hq3, hq4⟩ := hscan
+      have hin : ¬ pos > r.total := by omega
+      have hd0 : msg.drop pos = s ++ 0 :: (zeros (3 - s.length % 4) ++ (as.flatMap encArg ++ R)) := by
+        rw [hd, encArg, padStr_eq]; simp
+      have hq1 : scanNul r r.fuel pos = some (pos + s.length) :=
+        scanNul_of_drop h s pos r.fuel _ hd0 hs (by omega) (by omega)
       have step : lenLoop r al (nreserved ts + 1) (t :: ts) pos =
-          lenLoop r al (nreserved ts) ts (u32 (q + (4 - usub q al % 4))) := by
-        rcases ht with rfl | rfl <;> simp [lenLoop, hq1]
-      rw [step, usub_eq (by omega) hq3, hq4, u32_id (by omega),
+          lenLoop r al (nreserved ts) ts
+            (u32 (pos + s.length + (4 - usub (pos + s.length) al % 4))) := by
+        rcases ht with rfl | rfl <;> simp [lenLoop, hq1, hin]
+      have hq4 : pos + s.length + (4 - (pos + s.length - al) % 4) =
+          pos + (s.length + (4 - s.length % 4)) := by omega
+      rw [step, usub_eq (by omega) (by omega), hq4, u32_id (by omega),
         ih as _ R hm' hwf' hd' hal (by omega) (by omega) (by omega) (by omega)]
       congr 1; omega
     · -- blob
@@ -210,10 +202,12 @@ theorem lenLoop_spec {r : Ring} {msg : Bytes} (h : r.d0 ++ r.d1 = msg) (al : Nat
         rw [hd]; simp [encArg]
       simp only [encArg, List.length_append, be32_length, zeros_length, pad4] at hd' hlt hfu ⊢
       rw [nreserved_cons_true hr]; subst ht
-      simp only [lenLoop, show ¬ ((98 : UInt8) = 104 ∨ (98 : UInt8) = 116 ∨ (98 : UInt8) = 100) by decide,
+      have hin : ¬ pos > r.total := by omega
+      have hfit : ¬ (pos + 4 > r.total ∨ d.length > r.total - (pos + 4)) := by omega
+      simp only [lenLoop, hin, show ¬ ((98 : UInt8) = 104 ∨ (98 : UInt8) = 116 ∨ (98 : UInt8) = 100) by decide,
         show ¬ ((98 : UInt8) = 109 ∨ (98 : UInt8) = 114 ∨ (98 : UInt8) = 99 ∨ (98 : UInt8) = 102 ∨ (98 : UInt8) = 105) by decide,
         show ¬ ((98 : UInt8) = 83 ∨ (98 : UInt8) = 115) by decide, if_false, if_true, hrd, hl]
-      rw [u32_id (n := pos + 4) (by omega), u32_id (n := pos + 4 + d.length) (by omega),
+      rw [u32_id (n := pos + 4) (by omega), if_neg hfit, u32_id (n := pos + 4 + d.length) (by omega),
         usub_eq (by omega) (by omega)]
       have hfin : (if (pos + 4 + d.length - al) % 4 ≠ 0 then
             u32 (pos + 4 + d.length + (4 - (pos + 4 + d.length - al) % 4)) else pos + 4 + d.length) =
@@ -226,13 +220,14 @@ theorem lenLoop_spec {r : Ring} {msg : Bytes} (h : r.d0 ++ r.d1 = msg) (al : Nat
     · rw [nreserved_cons_false hr]
       have hm' := (matches_skip hk).mp hm
       have := ih args pos R hm' hwf hd hal hle hp hlt hfu
+      have hin : ¬ pos > r.total := by omega
       cases hn : nreserved ts with
       | zero =>
         rw [hn, lenLoop_zero] at this
         rw [lenLoop_zero]; exact this
       | succ n =>
         rw [hn] at this
-        simp only [lenLoop, h1, h2, h3, h4, h5, h6, h7, h8, h9, h10, h11, or_self, if_false]
+        simp only [lenLoop, hin, h1, h2, h3, h4, h5, h6, h7, h8, h9, h10, h11, or_self, if_false]
         exact this
 
 theorem ringLength_spec (m : Msg) (rest : Bytes) (r : Ring) (hwf : m.WF)
@@ -299,7 +294,5 @@ theorem ringLength_spec (m : Msg) (rest : Bytes) (r : Ring) (hwf : m.WF)
   simp only
   rw [lenLoop_spec h (Aoff m) m.tags m.args (Aoff m + Boff m) rest hwf.matches_ hwf.args_ok (drop_vals m rest)
     (by omega) (by omega) (by omega) (by omega) (by omega)]
-  simp only
-  rw [if_pos (by omega)]
   congr 1; omega
 end Rtosc.Osc
